@@ -37,7 +37,7 @@ VARIANT = "asan_mem"
 vbuild.VARIANTS.setdefault(VARIANT, ("gcc", ["-O1", "-g", "-fno-omit-frame-pointer", "-D" + vbuild.GUARD, "-fsanitize=address,undefined",
                                              "-fno-sanitize=shift,signed-integer-overflow,float-cast-overflow,float-divide-by-zero,integer-divide-by-zero",
                                              "-fno-sanitize-recover=all"], ["-rdynamic", "-fsanitize=address,undefined"]))
-ENV = dict(os.environ, ASAN_OPTIONS="detect_leaks=0:abort_on_error=0:allocator_may_return_null=1:max_allocation_size_mb=40000:hard_rss_limit_mb=2500:detect_stack_use_after_return=0",
+ENV = dict(os.environ, ASAN_OPTIONS="detect_leaks=0:abort_on_error=0:allocator_may_return_null=0:max_allocation_size_mb=640:hard_rss_limit_mb=2500:detect_stack_use_after_return=0",
            UBSAN_OPTIONS="print_stacktrace=1")
 
 
@@ -49,6 +49,15 @@ def _imagegen():
 
 
 # ------------------------------------------------------------------------------------------------ running batches
+ALLOC_WRAPPERS = {"janet_gcalloc", "janet_abstract_begin", "janet_abstract", "janet_abstract_threaded", "janet_abstract_begin_threaded",
+                  "janet_unmarshal_abstract", "janet_unmarshal_abstract_threaded", "janet_smalloc", "janet_scalloc", "janet_srealloc"}
+# allocation sites whose size comes straight from the image and is not bounded by the input length on the pinned tree
+# (funcdef section lengths, funcenv length, fiber stack size, peg bytecode / constant counts): documented resource limit,
+# counted in the evidence, not reported.  An over-sized allocation anywhere else (array / tuple / string / table /
+# buffer lengths are bounded by MARSH_EOS "DOS checks") IS reported.
+UNBOUNDED_ALLOC_SITES = {"unmarshal_one_def@marsh.c", "unmarshal_one_fiber@marsh.c", "unmarshal_one_env@marsh.c", "peg_unmarshal@peg.c"}
+
+
 def classify(rc, err):
     """stable signature of a crash from the sanitizer report / exit status"""
     txt = err.decode(errors="replace") if isinstance(err, bytes) else err
@@ -60,6 +69,8 @@ def classify(rc, err):
     m = re.search(r"ERROR: AddressSanitizer: ([\w-]+)", txt)
     if m:
         kind = "asan-" + m.group(1)
+        if "requested allocation size" in txt or m.group(1) in ("requested", "allocation-size-too-big"):
+            kind = "asan-allocation-size-too-big"
         if m.group(1) == "SEGV":
             mm = re.search(r"The signal is caused by a (READ|WRITE)", txt)
             if mm:
@@ -69,18 +80,27 @@ def classify(rc, err):
         if m:
             kind = "ubsan-" + re.sub(r"0x[0-9a-f]+|\d+", "N", m.group(1))[:60].strip().replace(" ", "-")
     if kind is None:
+        m = re.search(r"(\w+\.c):(\d+) - janet out of memory", txt)
+        if m:
+            return "exit-out-of-memory:%s:%s" % (m.group(1), m.group(2))
         if "out of memory" in txt:
             kind = "exit-out-of-memory"
         elif rc is not None and rc < 0:
             kind = "signal-%d" % (-rc)
         else:
             kind = "exit-%s" % rc
-    # first frame inside the janet sources
+    # first frame inside the janet sources (for an over-sized allocation: the first frame that is not an allocation wrapper)
     fn = None
     for m in re.finditer(r"#\d+ 0x[0-9a-f]+ in (\w+) [^\n]*?/src/core/(\w+\.c)", txt):
+        if kind == "asan-allocation-size-too-big" and m.group(1) in ALLOC_WRAPPERS:
+            continue
         fn = "%s@%s" % (m.group(1), m.group(2))
         break
     return "%s:%s" % (kind, fn or "?")
+
+
+def is_known_unbounded_alloc(sig, tree):
+    return sig.startswith("asan-allocation-size-too-big:") and sig.split(":", 1)[1] in UNBOUNDED_ALLOC_SITES
 
 
 def run_batch(hx, lines, gc_every=8, timeout=900):
@@ -177,12 +197,12 @@ def gen_inputs(ctx, ig, base, ops, lb, quick):
     for lab, b in base:
         big = len(b) > 120
         for off in range(len(b)):
-            vals = bvals if not quick else ([rng.choice(bvals) for _ in range(3 if big else 6)] + [(b[off] + 1) & 255, (b[off] - 1) & 255, 0, 255])
+            vals = bvals if not quick else ([rng.choice(bvals) for _ in range(1 if big else 3)] + [(b[off] + 1) & 255, (b[off] - 1) & 255, 0xFF if off % 2 else 0])
             for v in set(vals):
                 if v != b[off]:
                     add("subst", "%s@%d=%02x" % (lab, off, v), b[:off] + bytes([v]) + b[off + 1:])
     # 3. structure aware: functions
-    n_fn = 6000 if quick else 60000
+    n_fn = 5000 if quick else 60000
     for i in range(n_fn):
         fn = ig.gen_function(rng, ops, wild=(2 if i % 3 == 0 else 0))
         labels = []
@@ -193,7 +213,7 @@ def gen_inputs(ctx, ig, base, ops, lb, quick):
         except Exception:
             pass
     # 4. structure aware: fibers
-    n_fb = 8000 if quick else 80000
+    n_fb = 6000 if quick else 80000
     for i in range(n_fb):
         f = ig.gen_fiber(rng, ops)
         labels = []
@@ -206,6 +226,17 @@ def gen_inputs(ctx, ig, base, ops, lb, quick):
         if rng.chance(1, 8):
             b = enc.val(("tuple", [("raw", b), ("ref", 0)], 0))
         add("fiber", "+".join(labels) or "wellformed", b)
+    # 4b. fibers inside the domain of the Lean acceptance model, mutated so that the equations between the fields stay
+    #     consistent; the model line travels with the case (4th tuple element)
+    n_mf = 9000 if quick else 120000
+    for i in range(n_mf):
+        m = ig.gen_model_fiber(rng, ops)
+        labels = [ig.mutate_model_fiber(rng, m) for _ in range(rng.choice([1, 1, 1, 2, 2, 3]))]
+        try:
+            img, mline = ig.render_model_fiber(enc, ops, m)
+        except Exception:
+            continue
+        cases.append(("mfiber", "+".join(labels), "u " + img.hex(), mline))
     # 5. NaN-boxed reals: every interesting payload through LB_REAL, alone and as constants / stack slots
     for hi in range(0, 256, 1 if not quick else 5):
         for tail in (b"\x00" * 6, b"\x01\x00\x00\x00\x00\x00", b"\xff" * 6, b"\x78\x56\x34\x12\x00\x00"):
@@ -214,7 +245,7 @@ def gen_inputs(ctx, ig, base, ops, lb, quick):
                 add("real", "payload", bytes([lb["LB_REAL"]]) + raw)
                 add("real", "in-tuple", enc.val(("tuple", [("real", raw), ("real", raw)], 0)))
     # 6. random bytes, and random tails after a plausible lead
-    n_r = 6000 if quick else 100000
+    n_r = 1500 if quick else 100000
     leads = [lb[k] for k in ("LB_FIBER", "LB_FUNCTION", "LB_ARRAY", "LB_TUPLE", "LB_TABLE", "LB_STRUCT", "LB_STRING", "LB_REFERENCE", "LB_ABSTRACT", "LB_REAL",
                              "LB_FUNCENV_REF", "LB_FUNCDEF_REF", "LB_TABLE_PROTO", "LB_STRUCT_PROTO", "LB_BUFFER", "LB_REGISTRY")]
     for i in range(n_r):
@@ -224,7 +255,7 @@ def gen_inputs(ctx, ig, base, ops, lb, quick):
             b = bytes([rng.choice(leads)]) + b
         add("random", "bytes", b)
     # 7. asm descriptions: well typed, ill typed (one wild operand), junk fields
-    n_a = 5000 if quick else 50000
+    n_a = 3000 if quick else 50000
     for i in range(n_a):
         wild = [0, 0, 2, 4][i % 4]
         d = ig.gen_def(rng, ops, wild=wild)
@@ -362,12 +393,12 @@ def run(ctx):
     wit = sorted(witness_images(ig, lb, ops).items())
     for name, b in wit:
         cases.insert(0, ("witness", name, "u " + b.hex()))
-    cases = synth + cases
+    cases = [c if len(c) == 4 else tuple(c) + (None,) for c in synth + cases]
     lines = [c[2] for c in cases]
     ctx.say("running %d inputs through the ASan harness" % len(lines))
     outs, crashes = run_parallel(hx, lines)
     stats = {}
-    for (kind, label, line), o in zip(cases, outs):
+    for (kind, label, line, _m), o in zip(cases, outs):
         s = stats.setdefault(kind, {"n": 0, "acc": 0, "rej": 0, "died": 0})
         s["n"] += 1
         if o is None:
@@ -378,7 +409,7 @@ def run(ctx):
             s["rej"] += 1
     # the model's prediction for the three witness images: accepted exactly when the corresponding check is absent
     if image_checks is not None:
-        for (kind, label, line), o in zip(cases, outs):
+        for (kind, label, line, _m), o in zip(cases, outs):
             if kind == "witness" and o is not None:
                 predicted_accept = not image_checks[WITNESS_CHECK[label]]
                 if o.startswith("acc") != predicted_accept:
@@ -389,6 +420,49 @@ def run(ctx):
         if o and o.startswith("rej"):
             rej_classes[o[4:]] = rej_classes.get(o[4:], 0) + 1
     ctx.say("accepted/rejected per generator: %s" % json.dumps(stats, sort_keys=True))
+    # (D2) accept / reject correspondence of the fiber-image model on the modelled fibers.  `inv` = acceptance with every
+    # check present = the well-formedness invariant (fiber_image_wf_of_all_checks); `src` = with the checks extracted from
+    # the current source.  real accepts & inv rejects: an ill-formed fiber was let in -> that image is the failing input.
+    mf = [(i, c) for i, c in enumerate(cases) if c[0] == "mfiber" and c[3] is not None and outs[i] is not None]
+    mstats = {"compared": 0, "both_accept": 0, "both_reject": 0, "real_accepts_invariant_rejects": 0, "real_rejects_invariant_accepts": 0, "src_model_differs": 0}
+    if exe and mf:
+        mo = ctx.model([c[3] for _, c in mf], exe=exe)
+        illformed = {}
+        other = []
+        for (i, c), r in zip(mf, mo):
+            real = outs[i].startswith("acc")
+            inv = "inv=acc" in r
+            src = "src=acc" in r
+            mstats["compared"] += 1
+            if real and inv:
+                mstats["both_accept"] += 1
+            elif not real and not inv:
+                mstats["both_reject"] += 1
+            elif real and not inv:
+                mstats["real_accepts_invariant_rejects"] += 1
+                key = c[1].split("+")[0].rstrip("0123456789+-")
+                if key not in illformed or len(c[2]) < len(illformed[key][1][2]):
+                    illformed[key] = (i, c, outs[i])
+            else:
+                mstats["real_rejects_invariant_accepts"] += 1
+                other.append({"mutation": c[1], "input": c[2], "model": c[3], "impl": outs[i]})
+            if src != real:
+                mstats["src_model_differs"] += 1
+                if len(other) < 5:
+                    other.append({"mutation": c[1], "input": c[2], "model": c[3], "impl": outs[i], "src_model": r})
+        for key in sorted(illformed)[:4]:
+            i, c, o = illformed[key]
+            ctx.violation("ill-formed-fiber-accepted:" + key, {"kind": "crash", "generator": "mfiber", "mutation": c[1], "input": c[2], "model_line": c[3],
+                                                               "implementation": o, "invariant": "rejects (acceptFiber with every check = FiberWf)"},
+                          what="unmarshal accepts a fiber image that violates the well-formedness invariant (%s); %d such images" % (c[1], mstats["real_accepts_invariant_rejects"]))
+        if mstats["real_rejects_invariant_accepts"]:
+            broken.append("correspondence fiber model: implementation rejects %d images the model accepts, first %r" % (mstats["real_rejects_invariant_accepts"], other[0]))
+            ctx.broken.append(broken[-1])
+        if mstats["src_model_differs"] and not img_broken:
+            broken.append("correspondence: acceptance predicted from Gen/ImageChecks differs from the implementation on %d images" % mstats["src_model_differs"])
+            ctx.broken.append(broken[-1])
+    ctx.say("fiber model correspondence: %s" % json.dumps(mstats))
+    resource_exits = {}
     # triage crashes: group by signature, keep the shortest input per signature, confirm alone
     by_sig = {}
     for idx, rc, err in crashes:
@@ -400,7 +474,10 @@ def run(ctx):
             by_sig[sig] = (cur[0], cur[1], cur[2], cur[3] + 1)
     for sig in sorted(by_sig):
         idx, rc, err, count = by_sig[sig]
-        kind, label, line = cases[idx]
+        kind, label, line, _m = cases[idx]
+        if is_known_unbounded_alloc(sig, tree):
+            resource_exits[sig] = count
+            continue
         alone = confirm_alone(hx, line)
         if alone is not None:
             sig2 = classify(alone[1], alone[2])
@@ -431,7 +508,8 @@ def run(ctx):
                 "function/fiber is then called with 6 argument vectors / resumed, cancelled, stepped, iterated, printed, hashed, compared, re-marshalled and collected",
         "samples": [c[2][:80] for c in cases[:3]] + [c[2][:80] for c in cases[len(cases) // 2:len(cases) // 2 + 2]],
         "generators": stats, "accepted": acc_total, "reject_classes": dict(sorted(rej_classes.items(), key=lambda kv: -kv[1])[:25]),
-        "crash_signatures": {k: v[3] for k, v in by_sig.items()},
+        "crash_signatures": {k: v[3] for k, v in by_sig.items()}, "fiber_model_correspondence": mstats,
+        "resource_exits_not_counted": resource_exits,
         "verify_correspondence_cases": len(vlines), "verify_correspondence_diffs": len(vdiffs), "verify_return_codes": vcodes,
         "image_checks_present": image_checks, "bad_table_rows": [ops.name_of.get(o, o) for o in bad_rows],
     }
@@ -453,7 +531,9 @@ def replay(ctx, path):
             sig = classify(crashes[-1][1], crashes[-1][2])
             print(crashes[-1][2][-2500:])
             ctx.violation("crash:" + sig, dict(r, stderr=crashes[-1][2][-3000:]), what="replayed: " + sig)
+        elif r.get("generator") == "mfiber" and outs[-1] and outs[-1].startswith("acc"):
+            ctx.violation(r.get("signature", "ill-formed-fiber-accepted"), r, what="replayed: ill-formed fiber image is still accepted")
         else:
             ctx.say("replay: input no longer crashes: %s" % outs[-1])
-        return ctx.finish("proof", {"evaluations": len(lines) + len(vlines), "distinct_nontrivial": len(lines), "rule": "replay", "samples": lines[-1:]})
+        return ctx.finish("proof", {"evaluations": len(lines), "distinct_nontrivial": len(lines), "rule": "replay", "samples": lines[-1:]})
     return run(ctx)
